@@ -25,6 +25,26 @@ Theorem C03_sha256_stream : forall chunks : list (list N),
 Proof. exact sha256_stream. Qed.
 Print Assumptions C03_sha256_stream.
 
+(* SHA-512/224 and SHA-512/256: reachable only through the generic digest dispatch *)
+Theorem C03_sha512_224_stream : forall chunks : list (list N),
+  (N.of_nat (length (concat chunks) / 128) < 2^64)%N ->
+  sha512_224_finish (fold_left sha512_update chunks sha512_224_init) = sha512_224 (concat chunks).
+Proof. exact sha512_224_stream. Qed.
+Print Assumptions C03_sha512_224_stream.
+
+Theorem C03_sha512_256_stream : forall chunks : list (list N),
+  (N.of_nat (length (concat chunks) / 128) < 2^64)%N ->
+  sha512_256_finish (fold_left sha512_update chunks sha512_256_init) = sha512_256 (concat chunks).
+Proof. exact sha512_256_stream. Qed.
+Print Assumptions C03_sha512_256_stream.
+
+(* their initial values are what the standard's IV generation function (FIPS 180-4 5.3.6.1/2) yields *)
+Theorem C03_sha512t_iv_is_generated :
+  flat_map be64 H512_224 = sha512t_iv_gen [0x53;0x48;0x41;0x2d;0x35;0x31;0x32;0x2f;0x32;0x32;0x34]%N /\
+  flat_map be64 H512_256 = sha512t_iv_gen [0x53;0x48;0x41;0x2d;0x35;0x31;0x32;0x2f;0x32;0x35;0x36]%N.
+Proof. exact sha512t_iv_is_generated. Qed.
+Print Assumptions C03_sha512t_iv_is_generated.
+
 Theorem C03_sha384_stream : forall chunks : list (list N),
   (N.of_nat (length (concat chunks) / 128) < 2^64)%N ->
   sha384_finish (fold_left sha512_update chunks sha384_init) = sha384 (concat chunks).
@@ -111,14 +131,15 @@ Proof. exact sm3_unrolled_eq_rounds. Qed.
 Print Assumptions C03_sm3_unrolled_eq_rounds.
 
 (* Source-derived tables: the round constants and initial values in src/sm3.c, src/sm3_sse.c,
-   src/sha1.c, src/sha256.c, src/sha512.c (copied into Gen/HashTables.v by tools/consts_hash.py on
+   src/sha1.c, src/sha256.c, src/sha512.c, src/digest.c (copied into Gen/HashTables.v by tools/consts_hash.py on
    every run) are the constants of the Spec, and the literal K table of the unrolled model is the
    source's. *)
 Theorem C03_hash_tables :
   c_sm3_K = sm3_K_spec /\ c_sm3_iv = sm3_iv /\ c_sm3sse_K = sm3_K_spec /\ c_sm3sse_iv = sm3_iv /\
   c_sha1_K = sha1_K_spec /\ c_sha1_iv = H1 /\
   c_sha256_K = K256 /\ c_sha256_iv = H256 /\ c_sha224_iv = H224 /\
-  c_sha512_K = K512 /\ c_sha512_iv = H512 /\ c_sha384_iv = H384.
+  c_sha512_K = K512 /\ c_sha512_iv = H512 /\ c_sha384_iv = H384 /\
+  c_sha512_224_iv = H512_224 /\ c_sha512_256_iv = H512_256.
 Proof. exact hash_tables_ok. Qed.
 Print Assumptions C03_hash_tables.
 
